@@ -23,6 +23,8 @@ ORDER = ['x', 'y', 'z']
 
 
 def build(reg, src):
+    from contracts import c09_arity
+    reg.extra_checks.append(c09_arity.arity_check)
     c03.build(reg, src, verify_evaluator=False)
     reg.assumptions += [
         "inspect.signature (safe_inspect) is an assumed pure function of the callable; membership tests on its result are uninterpreted",
